@@ -36,7 +36,7 @@ func run(c *vk.Ctx) {
 			sql = append(sql, s)
 		}
 	}
-	sem.RunCases(c, base, "mem", c.Pick(400, 3000), gen.Options{WideEvery: 4}, 3, 12, func(i int, r *rand.Rand, p *sem.Prepared, contextual []*openfgav1.TupleKey) {
+	sem.RunCases(c, base, "mem", c.Pick(400, 3000), gen.Options{WideEvery: 4, AlgebraEvery: 5, HierarchyEvery: 6}, 3, 12, func(i int, r *rand.Rand, p *sem.Prepared, contextual []*openfgav1.TupleKey) {
 		oneCase(c, i, p, contextual, base)
 	})
 	for _, s := range sql {
